@@ -71,6 +71,7 @@ def mutate(E, fs, sizes, mut, P, tag=""):
         E.witnesses["file added"] = True
     elif mut == "delete":
         del fs.files["/data/name/b"]
+        fs.touch("/data/name/b")
         del sizes["name/b"]
         E.witnesses["file deleted"] = True
     elif mut in ("grow", "shrink"):
